@@ -13,7 +13,7 @@ from __future__ import annotations
 from .common import HarnessError
 
 
-class Pruned(Exception):
+class Pruned(BaseException):
     pass
 
 
